@@ -68,8 +68,9 @@ RULE = ("template sets (1-2 templates, the second one included by the first) fro
         "<%call>, <%self:d attr=..>, <%local:d ..>); a case is non-trivial when a call with content runs its body at "
         "least once or a buffered/filtered/decorated/cached def is entered; distinct = distinct (template set, "
         "surface style, check).  Parameter defaults (harness/c05_defaults.py): expressions from a grammar of tuples "
-        "of length 0/1/2, nested containers, operators, conditionals, lambdas, slices and quoted strings, in 4 "
-        "declarations x 7 calling routes that leave the parameter to its default; value and type against a real "
+        "of length 0/1/2, nested containers, operators, conditionals, lambdas, slices and quoted strings, in 3 "
+        "declarations (positional, keyword-only after *, after *args) x 6 calling routes plus the body argument of a "
+        "<%call> - all leaving the parameter to its default; value and type against a real "
         "Python function with the same signature text")
 ASSUMPTIONS = [
     "templates are well-scoped, non-recursive, binders have unique names (gen_template invariants); the cache is a "
@@ -94,10 +95,11 @@ TRUSTED_EXTRA = ["C05: harness/c05_gen.py (generator, quirk feature tests, const
                  "binding), harness/c05_deco.py (decorator oracle: the same Python decorator on a plain function), "
                  "harness/c05_attrs.py (attribute / signature ground truth: Python's re, repr, ast and def binding), "
                  "harness/c05_defaults.py (default values: a real Python function with the same signature text; "
-                 "expression trees travel in C19's wire syntax, harness/props/C19.py ser_expr), "
+                 "expression trees travel in C19's wire syntax, harness/props/C19.py wire_expr), "
                  "harness/ref_render.py (reference renderer = oracle), harness/target_canon.py, "
                  "harness/gen_template.py"]
 DRIVER_OPS = ["tgt", "c05"]
+REGEN = ["PyExpr"]      # Props/C05.lean reaches Generated/PyExpr.lean through Codegen/AttrsDefaults.lean (the printer model)
 LEAN_EXTRA_TARGETS = ["MakoModel.Codegen.Spec"]
 
 STYLES = [m for m in SF.MODES if m != "plain"]
